@@ -148,6 +148,20 @@ fn main() {
             });
         }
     }
+    // 1b. `^` with the cheap bases and every special exponent (incl. 2^31, 2^32 and beyond), both signs
+    for (i, e) in specials.iter().enumerate() {
+        for (j, base) in [0i64, 1, -1].iter().enumerate() {
+            let a = BigInt::from(*base);
+            cases.push(Case {
+                kind: "bin",
+                op: "^".to_string(),
+                src_a: produce(&a, ((i + j) % 6) as u64),
+                src_b: produce(e, ((i * 5 + j) % 6) as u64),
+                a,
+                b: e.clone(),
+            });
+        }
+    }
     // 2. random
     while (cases.len() as u64) < n_cases {
         let pick = |rng: &mut Rng| -> BigInt {
@@ -188,7 +202,9 @@ fn main() {
         .into_iter()
         .filter(|c| match (c.kind, c.op.as_str()) {
             ("bin", "^") => {
-                c.b.abs() <= BigInt::from(300) && (c.a.bits() as u64) * c.b.abs().to_u64().unwrap_or(0) <= 200_000
+                // bases 0, 1, -1 are cheap for every exponent (also astronomically large ones)
+                c.a.abs() <= BigInt::from(1)
+                    || (c.b.abs() <= BigInt::from(300) && (c.a.bits() as u64) * c.b.abs().to_u64().unwrap_or(0) <= 200_000)
             }
             ("bin", "<<") => c.b <= BigInt::from(5000) || c.b.bits() > 64,
             ("un", "is_prime") | ("un", "factorize") => c.a.abs() <= BigInt::from(3_000_000),
